@@ -12,13 +12,20 @@
    In addition a VERIFIED CHECKER is evaluated on every generated case: [check_dist] on the
    distance list of every source (observation kind 62; it also checks that every weight is
    positive) and [check_transpose] on the searched adjacency (kind 63).
-   Still per-case only (kind 63): that `reverse()` yields the transposed adjacency / that the
-   adjacency of an undirected graph is symmetric (facts about graph construction, C15/C01
-   territory).  Not proved: that the fuel of the weighted loop is never exhausted (the
-   theorems are stated for runs that return, and no run of the correspondence ever ran out). *)
+   Round 2: the two facts about graph construction that were per-case only (kind 63) are PROVED
+   from the coherence invariant WF (Proofs/ClosenessStateOk.v): the successors_vec of `reverse()`
+   is the transpose of the source's (its rows are, up to the order of their entries, the source's
+   predecessors_vec rows), and the successors_vec of an undirected graph is symmetric; the fuel
+   of the weighted loop is never exhausted (Proofs/DijkstraFuelOk.v); and END TO END
+   (C06_closeness_reachable): for every reachable graph the model's closeness_centrality returns
+   Ok, one entry per node in node order, each value being the closeness of the definition over
+   the adjacency read off get_all_edges (INCOMING distances when directed; an undirected graph's
+   edge-list adjacency is symmetric, so ordinary distances: C06_closeness_undirected_reachable).
+   Observation 63 is kept as a per-case tie between model and code. *)
 From Coq Require Import List Bool ZArith Arith QArith.
 From GV Require Import Base.Outcome Base.AMap Model.GState Model.Query Model.Derived Model.Cent Model.Brandes Model.Closeness.
-From GV Require Import Spec.ClosenessDef Proofs.ClosenessOk Proofs.ClosenessBfsOk Proofs.DijkstraOk.
+From GV Require Import Spec.History Spec.ClosenessDef Proofs.WFDefs Proofs.HistoryOk Proofs.ClosenessOk
+     Proofs.ClosenessBfsOk Proofs.DijkstraOk Proofs.DijkstraFuelOk Proofs.ClosenessStateOk.
 Import ListNotations.
 
 (* a vector accepted by the checker holds, for every node, the true shortest
@@ -148,3 +155,107 @@ Proof. intros T A. exact (@weighted_model_value T A). Qed.
 Theorem C06_integer_view : forall sv a za,
   conv_adj true sv = Some a -> zconv_adj true sv = Some za -> zof a = za.
 Proof. exact zof_conv_adj. Qed.
+
+(* ---------------------------------------------------------------------------------------------
+   Round 2.  [sv_entry g i j w]: (j, w) is listed in row i of successors_vec; [pv_entry g j i w]:
+   (i, w) is listed in row j of predecessors_vec; [weights_transposable g]: single-edge graph, or
+   all stored weights real (the traversal weight of a group is then independent of the order of
+   the group: the one edge's weight / the minimum).
+   --------------------------------------------------------------------------------------------- *)
+
+(* the weighted search always returns: the fuel 2 + |E| + |V| is never exhausted (no hypothesis
+   on the costs, every tie choice of the heap) *)
+Theorem C06_dijkstra_total : forall (g : qadj) (lw : bool) (src : nat),
+  adj_ok (length g) g = true -> (src < length g)%nat ->
+  exists sp, sssp_weighted lw g src = Some sp.
+Proof. intros g lw src Hok Hsrc. exact (sssp_weighted_total g Hok lw src Hsrc). Qed.
+
+Theorem C06_weighted_no_fuel_exhaustion : forall (T A : Type) lw wf (tg : gstate T A) (a : qadj) src,
+  adj_ok (length a) a = true -> (src < length a)%nat ->
+  closeness_one lw true wf tg a (length a) src <> OutOfFuel.
+Proof. intros T A. exact (@weighted_model_no_fuel_exhaustion T A). Qed.
+
+Section C06_state.
+  Context {T A : Type}.
+  Variable teqb : T -> T -> bool.
+  Variable tltb : T -> T -> bool.
+  Hypothesis teqb_spec : forall x y, teqb x y = true <-> x = y.
+  Hypothesis tltb_asym : forall x y, tltb x y = true -> tltb y x = false.
+  Hypothesis tltb_total : forall x y, tltb x y = false -> tltb y x = false -> x = y.
+
+  (* predecessors_vec is the transpose of successors_vec, weights included *)
+  Theorem C06_predecessors_transpose_successors : forall (g : gstate T A) i j w,
+    WF teqb tltb g -> directed (sp g) = true -> (pv_entry g j i w <-> sv_entry g i j w).
+  Proof. exact (predecessors_transpose_successors teqb tltb teqb_spec). Qed.
+
+  (* reverse(): the traversal adjacency of the result is the transpose of the source's ... *)
+  Theorem C06_reverse_transposes_pairs : forall (g h : gstate T A),
+    WF teqb tltb g -> directed (sp g) = true -> reverse teqb tltb g = Ok h ->
+    forall i j, (exists w, sv_entry h j i w) <-> (exists w, sv_entry g i j w).
+  Proof. exact (reverse_transposes_pairs teqb tltb teqb_spec tltb_asym tltb_total). Qed.
+
+  Theorem C06_reverse_transposes : forall (g h : gstate T A),
+    WF teqb tltb g -> directed (sp g) = true -> reverse teqb tltb g = Ok h ->
+    forall i j w, weights_transposable g -> (sv_entry h j i w <-> sv_entry g i j w).
+  Proof. exact (reverse_transposes teqb tltb teqb_spec tltb_asym tltb_total). Qed.
+
+  (* ... i.e. its rows are the source's predecessor rows up to the order of their entries *)
+  Theorem C06_reverse_rows_are_predecessor_rows : forall (g h : gstate T A),
+    WF teqb tltb g -> directed (sp g) = true -> reverse teqb tltb g = Ok h ->
+    forall j rh rg,
+      nth_error (successors_vec h) j = Some rh -> nth_error (predecessors_vec g) j = Some rg ->
+      Permutation.Permutation (map fst rh) (map fst rg) /\
+      (weights_transposable g -> Permutation.Permutation rh rg).
+  Proof. exact (reverse_rows_are_predecessor_rows teqb tltb teqb_spec tltb_asym tltb_total). Qed.
+
+  (* the traversal adjacency of an undirected graph is symmetric, weights included *)
+  Theorem C06_undirected_adjacency_symmetric : forall (g : gstate T A) i j w,
+    WF teqb tltb g -> directed (sp g) = false -> (sv_entry g i j w <-> sv_entry g j i w).
+  Proof. exact (undirected_adjacency_symmetric teqb tltb teqb_spec tltb_asym tltb_total). Qed.
+
+  (* what [edge_zadj weighted g] is: row i lists (j, c) exactly for the stored edges from the i-th
+     to the j-th node (in either orientation when undirected), c the edge's weight / 1 per hop;
+     parallel edges are separate entries *)
+  Theorem C06_edge_list_adjacency : forall weighted (g : gstate T A) i j c,
+    NoDup (names g) ->
+    (In (j, c) (zrow (edge_zadj teqb weighted g) i) <->
+     exists x y e, name_at g i = Some x /\ name_at g j = Some y /\ In e (get_all_edges g) /\
+                   ecost weighted e = Some c /\
+                   ((eu e = x /\ ev e = y) \/ (directed (sp g) = false /\ eu e = y /\ ev e = x))).
+  Proof. exact (in_edge_zadj teqb teqb_spec). Qed.
+
+  (* END TO END: closeness_centrality of a reachable graph *)
+  Theorem C06_closeness_reachable : forall s (g : gstate T A) lw weighted wf,
+    reachable teqb tltb s g -> (weighted = true -> positive_weights g) ->
+    exists m, closeness_centrality teqb tltb lw g weighted wf = Ok m /\
+              map fst m = get_all_node_names g /\
+              forall i x cc, nth_error m i = Some (x, cc) ->
+                             is_closeness (edge_zadj teqb weighted g) i wf cc.
+  Proof.
+    intros s g lw weighted wf Hr.
+    apply (closeness_centrality_spec teqb tltb teqb_spec tltb_asym tltb_total).
+    exact (WF_reachable teqb tltb teqb_spec tltb_asym tltb_total s g Hr).
+  Qed.
+
+  (* undirected graphs: the same value over ordinary (outgoing) distances *)
+  Theorem C06_closeness_undirected_reachable : forall s (g : gstate T A) lw weighted wf,
+    reachable teqb tltb s g -> directed s = false -> (weighted = true -> positive_weights g) ->
+    exists m, closeness_centrality teqb tltb lw g weighted wf = Ok m /\
+              map fst m = get_all_node_names g /\
+              forall u x cc, nth_error m u = Some (x, cc) ->
+                exists dv : list (option Z),
+                  length dv = length (edge_zadj teqb weighted g) /\
+                  (forall v, (v < length (edge_zadj teqb weighted g))%nat ->
+                             dist_spec (edge_zadj teqb weighted g) u v (oget dv v)) /\
+                  cc == closeness_val (length (edge_zadj teqb weighted g)) (count_some dv)
+                                      (inject_Z (sum_some dv)) wf.
+  Proof.
+    intros s g lw weighted wf Hr Hd Hpos.
+    pose proof (WF_reachable teqb tltb teqb_spec tltb_asym tltb_total s g Hr) as W.
+    rewrite <- (reachable_sp teqb tltb teqb_spec tltb_asym tltb_total s g Hr) in Hd.
+    destruct (closeness_centrality_spec teqb tltb teqb_spec tltb_asym tltb_total g lw weighted wf W Hpos)
+      as (m & Hm & Hk & Hcl).
+    exists m. split; [exact Hm|]. split; [exact Hk|]. intros u x cc Hu.
+    exact (is_closeness_undirected_outgoing teqb tltb teqb_spec weighted g u wf cc W Hd (Hcl u x cc Hu)).
+  Qed.
+End C06_state.
